@@ -5,7 +5,9 @@ use std::io::{BufRead, Write};
 use std::panic::{catch_unwind, AssertUnwindSafe};
 
 mod canon;
+mod lang;
 use canon::*;
+use lang::*;
 
 fn run_op2(name: &str, a: Val, b: Val) -> Result<Val, basic::lang::Error> {
     match name {
@@ -73,7 +75,15 @@ fn run_opn(name: &str, args: Vec<Val>) -> Result<Val, basic::lang::Error> {
 
 fn run_case(line: &str) -> String {
     let f: Vec<&str> = line.split(' ').collect();
+    let arg1 = || if f.len() > 1 { str_of_hex(f[1]) } else { String::new() };
     match f[0] {
+        "lex" => {
+            let (n, ts) = basic::lang::lex(&arg1());
+            format!("{}|{}", show_lnum(n), show_tokens(&ts))
+        }
+        "relist" => hex_of_str(&basic::lang::Line::new(&arg1()).to_string()),
+        "ast" => show_ast_res(true, &basic::lang::Line::new(&arg1()).ast()),
+        "astnc" => show_ast_res(false, &basic::lang::Line::new(&arg1()).ast()),
         "op1" => show_res(run_op1(f[1], parse_val(f[2]))),
         "op2" => show_res(run_op2(f[1], parse_val(f[2]), parse_val(f[3]))),
         "opn" => show_res(run_opn(f[1], f[2..].iter().map(|s| parse_val(s)).collect())),
@@ -92,16 +102,59 @@ fn main() {
     } else {
         Box::new(std::io::BufReader::new(std::io::stdin()))
     };
+    let lines: std::sync::Arc<Vec<String>> =
+        std::sync::Arc::new(reader.lines().map(|l| l.unwrap()).collect());
     let stdout = std::io::stdout();
     let mut out = std::io::BufWriter::new(stdout.lock());
-    for line in reader.lines() {
-        let line = line.unwrap();
-        let r = catch_unwind(AssertUnwindSafe(|| run_case(&line)));
-        match r {
-            Ok(s) => writeln!(out, "{}", s).unwrap(),
-            Err(_) => writeln!(out, "PANIC").unwrap(),
+    // Watchdog: cases run on a worker thread; a case that does not answer within the
+    // limit is reported as HANG, its thread is abandoned, and a fresh worker continues.
+    let limit = std::time::Duration::from_millis(
+        std::env::var("BLH_CASE_MS").ok().and_then(|s| s.parse().ok()).unwrap_or(3000),
+    );
+    let mut next = 0usize;
+    let mut hangs = 0usize;
+    while next < lines.len() {
+        let (tx, rx) = std::sync::mpsc::channel::<(usize, String)>();
+        let ls = lines.clone();
+        let from = next;
+        std::thread::Builder::new()
+            .stack_size(64 << 20)
+            .spawn(move || {
+                for i in from..ls.len() {
+                    let r = catch_unwind(AssertUnwindSafe(|| run_case(&ls[i])));
+                    let s = match r {
+                        Ok(s) => s,
+                        Err(_) => "PANIC".to_string(),
+                    };
+                    if tx.send((i, s)).is_err() {
+                        return;
+                    }
+                }
+            })
+            .unwrap();
+        loop {
+            if next >= lines.len() {
+                break;
+            }
+            match rx.recv_timeout(limit) {
+                Ok((_, s)) => {
+                    writeln!(out, "{}", s).unwrap();
+                    next += 1;
+                }
+                Err(_) => {
+                    writeln!(out, "HANG").unwrap();
+                    out.flush().unwrap();
+                    next += 1;
+                    hangs += 1;
+                    break;
+                }
+            }
         }
-        // one line per case, flushed: a hang or abort loses nothing already decided
-        out.flush().unwrap();
+        if hangs >= 12 {
+            // too many spinning threads: stop here, the caller records the rest as SKIPPED
+            break;
+        }
     }
+    out.flush().unwrap();
+    std::process::exit(0);
 }
